@@ -285,6 +285,8 @@ class Polynomial(Expression):
             return -1
     degree = property(_degree)
 
+    init_arg_names = ("Base", "Data", "Unit", "VarLess")
+
     def __getinitargs__(self):
         return (self.Base, self.Data, self.Unit, self.VarLess)
 
